@@ -48,7 +48,7 @@ Absent == [ex |-> FALSE, jc |-> 0, pol |-> "Allow", sa |-> 0, st |-> None, term 
 Idle == [busy |-> FALSE, jc |-> 0, todo |-> <<>>, ac |-> 0, t0 |-> 0, pend |-> "none", view |-> <<>>]
 IIdle == [busy |-> FALSE, j |-> 0, o |-> Absent]
 JCStatus0 == [rv |-> 1, active |-> {}, queued |-> {}, lastSch |-> 0, lastExe |-> 0]
-JIdle == [busy |-> FALSE, jc |-> 0, rv |-> 0, new |-> JCStatus0]
+JIdle == [busy |-> FALSE, jc |-> 0, rv |-> 0, new |-> JCStatus0, saw |-> {}]
 
 Init == /\ now = 1
         /\ api = [j \in Jobs |-> Absent] /\ cache = [j \in Jobs |-> Absent]
@@ -87,6 +87,12 @@ UserDelete(j) ==
     /\ api[j].ex /\ ~api[j].del /\ Room
     /\ Emit(j, [api[j] EXCEPT !.del = TRUE, !.rv = @ + 1])
     /\ UNCHANGED <<now, cache, storeq, counter, wq, timer, retry, iq, itimer, iretry, sync, isync, jcapi, jccache, jcevq, jq, jretry, jsync, seen, faults, crashes, touches>>
+\* the user edits startAfter of a Job that has not started (startPolicy is mutable until then)
+UserPostpone(j, sa) ==
+    /\ api[j].ex /\ ~Started(api[j]) /\ sa # api[j].sa /\ Room /\ touches < MaxTouch
+    /\ touches' = touches + 1
+    /\ Emit(j, [api[j] EXCEPT !.sa = sa, !.rv = @ + 1])
+    /\ UNCHANGED <<now, cache, storeq, counter, wq, timer, retry, iq, itimer, iretry, sync, isync, jcapi, jccache, jcevq, jq, jretry, jsync, seen, faults, crashes>>
 \* the object leaves the API (finalizer dropped, or no finalizer)
 Remove(j) ==
     /\ api[j].ex /\ Room
@@ -251,9 +257,11 @@ JCDeliver ==
 JSyncBegin(c) ==
     /\ WithJCSync /\ c \in jq /\ ~jsync.busy
     /\ jq' = jq \ {c}
-    /\ seen' = seen \cup {j \in Jobs : cache[j].ex /\ cache[j].jc = c}
-    /\ LET new == Recount(c, jccache[c]) IN
-       jsync' = IF new = jccache[c] THEN JIdle ELSE [busy |-> TRUE, jc |-> c, rv |-> jccache[c].rv, new |-> new]
+    /\ LET new == Recount(c, jccache[c])
+           saw == {j \in Jobs : cache[j].ex /\ cache[j].jc = c} IN
+       \* ghost: a Job counts as seen only by a pass that ends successfully (the status is the controller's only memory)
+       IF new = jccache[c] THEN jsync' = JIdle /\ seen' = seen \cup saw
+       ELSE jsync' = [busy |-> TRUE, jc |-> c, rv |-> jccache[c].rv, new |-> new, saw |-> saw] /\ UNCHANGED seen
     /\ UNCHANGED <<now, api, cache, evq, storeq, counter, wq, timer, retry, iq, itimer, iretry, sync, isync, jcapi, jccache, jcevq, jretry, faults, crashes, touches>>
 JStepWrite(f) ==
     /\ jsync.busy
@@ -264,10 +272,11 @@ JStepWrite(f) ==
             THEN /\ Len(jcevq) < MaxLag
                  /\ jcapi' = [jcapi EXCEPT ![c] = [jsync.new EXCEPT !.rv = jsync.rv + 1]]
                  /\ jcevq' = Append(jcevq, <<c, [jsync.new EXCEPT !.rv = jsync.rv + 1]>>)
+                 /\ seen' = seen \cup jsync.saw
                  /\ UNCHANGED jretry
-            ELSE /\ jretry' = jretry \cup {c} /\ UNCHANGED <<jcapi, jcevq>>
+            ELSE /\ jretry' = jretry \cup {c} /\ UNCHANGED <<jcapi, jcevq, seen>>
        /\ jsync' = JIdle
-    /\ UNCHANGED <<now, api, cache, evq, storeq, counter, wq, timer, retry, iq, itimer, iretry, sync, isync, jccache, jq, seen, crashes, touches>>
+    /\ UNCHANGED <<now, api, cache, evq, storeq, counter, wq, timer, retry, iq, itimer, iretry, sync, isync, jccache, jq, crashes, touches>>
 JRetryFire(c) == /\ c \in jretry /\ jretry' = jretry \ {c} /\ jq' = jq \cup {c}
                  /\ UNCHANGED <<now, api, cache, evq, storeq, counter, wq, timer, retry, iq, itimer, iretry, sync, isync, jcapi, jccache, jcevq, jsync, seen, faults, crashes, touches>>
 
@@ -287,6 +296,7 @@ CrashRestart ==
 Faults == {"ok", "error", "applied"}
 Next == \/ \E j \in Jobs, c \in Owners, p \in Pols, sa \in StartAfters, s \in Scheds : UserCreate(j, c, p, sa, s)
         \/ \E j \in Jobs : Finish(j) \/ ("Touch" \in Env /\ Touch(j)) \/ ("Delete" \in Env /\ UserDelete(j)) \/ ("Remove" \in Env /\ Remove(j))
+        \/ \E j \in Jobs, sa \in StartAfters : "Postpone" \in Env /\ UserPostpone(j, sa)
         \/ Tick \/ Deliver \/ StoreDeliver
         \/ \E c \in JCs : TimerFire(c) \/ RetryFire(c) \/ SyncBegin(c) \/ JSyncBegin(c) \/ JRetryFire(c)
         \/ \E j \in Jobs : ITimerFire(j) \/ IRetryFire(j) \/ ISyncBegin(j)
@@ -300,8 +310,9 @@ Quiescent == /\ evq = <<>> /\ storeq = <<>> /\ jcevq = <<>>
              /\ \A c \in JCs : ~wq[c] /\ ~retry[c]
              /\ iq = {} /\ iretry = {} /\ jq = {} /\ jretry = {}
              /\ ~sync.busy /\ ~isync.busy /\ ~jsync.busy
-\* timers still armed are fine only if they cannot be due: every armed timer belongs to a Job whose startAfter is in the future
-TimersNotDue == /\ \A c \in JCs : timer[c] => \E j \in Jobs : Queued(api[j]) /\ api[j].jc = c /\ api[j].sa > now
+\* an armed deferred re-sync whose deadline may have passed is pending work (durations are not interpreted):
+\* the state is quiet only if no queued Job of that JobConfig is already due
+TimersNotDue == /\ \A c \in JCs : timer[c] => \A j \in Jobs : (Queued(api[j]) /\ api[j].jc = c) => api[j].sa > now
                 /\ \A j \in itimer : api[j].sa > now \/ ~Queued(api[j])
 Quiet == Quiescent /\ TimersNotDue
 
@@ -315,6 +326,7 @@ C06_NoStuckQ == Quiet => C06_NoStuck(api, now, MaxC)
 C07_NeverEarly == C07_NotEarly(api)
 C07_NeverEarlyStep == [][C07_NotEarlyStep(api, api', now')]_vars
 C07_IndepStarts == Quiet => C07_IndependentStarts(api, now)
+C07_RefusedWhenDue == [][C07_RefusedOnlyWhenDueStep(api, api', now')]_vars
 C11_StartStable == [][C11_StartTimeStable(api, api')]_vars
 \* supporting invariants (localise a violation; not property verdicts)
 S_CounterNonNeg == \A c \in JCs : counter[c] >= 0
